@@ -12,3 +12,71 @@ package fs
 //@   pure
 //@ assume func (PathHasher).NewHash
 //@   pure
+
+// ---------------------------------------------------------------------------------------------
+// glob() filtering (C21)
+//
+// Hidden: the statement says "never returns hidden files or anything inside hidden directories": some path
+// component starts with a dot. The code looks at the base name only; the gap (a hidden directory with a
+// non-hidden base name, e.g. ".a/b") is a recorded known finding.
+//@ spec hiddenDirOnly(name string) bool = (hasPrefix(name, ".") || contains(name, "/.")) && !hasPrefix(filepath.Base(name), ".")
+//@ func isHidden
+//@   modifies nothing
+//@   ensures hidden_base [C21]: hasPrefix(filepath.Base(name), ".") ==> result
+//@   ensures hidden_component [C21 except=hiddenDirOnly]: hasPrefix(name, ".") || contains(name, "/.") ==> result
+//@   ensures only_hidden [C21]: result ==> hasPrefix(filepath.Base(name), ".") || \
+//@      (hasPrefix(filepath.Base(name), "#") && hasSuffix(filepath.Base(name), "#"))
+//
+// Sub-package containment is component-wise: the directory itself or anything under "dir/".
+//@ spec inDirs(name string, dirs []string) bool = exists i int :: 0 <= i && i < len(dirs) && (name == dirs[i] || hasPrefix(name, dirs[i] + "/"))
+//@ func isInDirectories
+//@   modifies nothing
+//@   invariant "range directories" none: forall j int :: 0 <= j && j < idx ==> !(name == directories[j] || hasPrefix(name, directories[j] + "/"))
+//@   ensures spec [C21]: result == inDirs(name, directories)
+//
+//@ func isBathPathOf
+//@   modifies nothing
+//@   ensures spec [C21]: result == (path == base || hasPrefix(path, base + "/"))
+//
+// Excludes: a match is excluded iff SOME exclude applies to it — either as a path prefix, or through its
+// matcher, which works on the base name exactly when the match has a slash and that exclude has none. The
+// mode must be chosen per exclude (it must not leak from one exclude to the next).
+//@ assume func patternToMatcher
+//@   pure
+//@ assume func (matcher).Match
+//@   pure
+//@ spec exclRoot(root string, match string, excl string) string = ite(strings.ContainsRune(match, '/') && !strings.ContainsRune(excl, '/'), "", root)
+//@ spec exclName(match string, excl string) string = ite(strings.ContainsRune(match, '/') && !strings.ContainsRune(excl, '/'), filepath.Base(match), match)
+//@ spec exclErr(root string, match string, excl string) bool = second(patternToMatcher(exclRoot(root, match, excl), excl)) != nil || \
+//@      second(first(patternToMatcher(exclRoot(root, match, excl), excl)).Match(exclName(match, excl))) != nil
+//@ spec exclHit(root string, match string, excl string) bool = (match == filepath.Join(root, excl) || hasPrefix(match, filepath.Join(root, excl) + "/")) || \
+//@      (!exclErr(root, match, excl) && first(first(patternToMatcher(exclRoot(root, match, excl), excl)).Match(exclName(match, excl))))
+//
+//@ func shouldExcludeMatch
+//@   opt panics=allowed
+//@   invariant "range excludes" none: forall j int :: 0 <= j && j < idx ==> !exclHit(root, match, excludes[j]) && !exclErr(root, match, excludes[j])
+//@   ensures excluded [C21]: result1 == nil ==> (result0 == (exists i int :: 0 <= i && i < len(excludes) && exclHit(root, match, excludes[i])))
+//
+// The regex form of a ** pattern: `?` stands for exactly one character (it becomes `.`), and a literal dot
+// is escaped. For a pattern without + . * the translation is just the anchors plus that substitution.
+//@ func toRegexString
+//@   modifies nothing
+//   (bounded stand-ins: chains of str.replace_all are not decided by any installed solver within budget, so
+//    these two clauses are executed against the real function on an enumerated input space instead)
+//@   ensures question_mark [C21 bounded]: !contains(pattern, "+") && !contains(pattern, ".") && !contains(pattern, "*") ==> \
+//@      result == "^" + replaceAll(pattern, "?", ".") + "$"
+//@   ensures literal_dot [C21 bounded]: !contains(pattern, "+") && !contains(pattern, "?") && !contains(pattern, "*") ==> \
+//@      result == "^" + replaceAll(pattern, ".", "\\.") + "$"
+//
+// The directory walk of a glob: a BUILD file — whatever kind of directory entry it is — makes its directory
+// a sub-package (recorded and not descended into), unless it is the BUILD file of the globbed package itself.
+//@ assume func isBuildFile
+//@   pure
+//@ func (Globber).walkDir.lit#1
+//@   requires globber != nil && d != nil
+//@   opt nopanic=off
+//@   ensures subpackage_recorded [C21]: isBuildFile(globber.buildFileNames, path) && filepath.Dir(path) != rootPath ==> \
+//@      result == filepath.SkipDir && len(dir.subPackages) == len(old(dir.subPackages)) + 1 && \
+//@      dir.subPackages[len(dir.subPackages) - 1] == filepath.Dir(path)
+//@   ensures output_tree_skipped [C21]: !(isBuildFile(globber.buildFileNames, path) && filepath.Dir(path) != rootPath) && \
+//@      d.Name() == "plz-out" && rootPath == "." ==> result == filepath.SkipDir
